@@ -150,6 +150,8 @@ pub enum Obs {
     /// kind, raw bytes via Deref, name()/target() bytes (empty where not applicable)
     Ev(Kind, Vec<u8>, Vec<u8>),
     Err(ErrObs),
+    /// bytes obtained by a raw read through `Reader::stream()` between two events
+    Raw(Vec<u8>),
 }
 impl Obs {
     pub fn kind(&self) -> Option<Kind> {
@@ -179,6 +181,7 @@ impl Obs {
                 }
             }
             Obs::Err(e) => format!("Err({:?})", e),
+            Obs::Raw(b) => format!("RawStreamRead({:?})", crate::ctx::show(b)),
         }
     }
 }
@@ -299,10 +302,12 @@ pub fn trace_json(t: &Trace) -> Value {
 pub struct CfgHist {
     pub base: u8,
     pub flips: Vec<(u32, u8)>,
+    /// raw reads through `Reader::stream()`: after call number `.0` read `.1` bytes
+    pub raw: Vec<(u32, u8)>,
 }
 impl CfgHist {
     pub fn fixed(base: u8) -> Self {
-        CfgHist { base, flips: vec![] }
+        CfgHist { base, flips: vec![], raw: vec![] }
     }
     #[inline]
     pub fn at(&self, call: u32) -> u8 {
@@ -318,7 +323,8 @@ impl CfgHist {
     }
     pub fn to_json(&self) -> Value {
         json!({"base": self.base, "base_show": cfg_show(self.base),
-               "flips": self.flips.iter().map(|(i,b)| json!([i, b, cfg_show(*b)])).collect::<Vec<_>>()})
+               "flips": self.flips.iter().map(|(i,b)| json!([i, b, cfg_show(*b)])).collect::<Vec<_>>(),
+               "raw_stream_reads": self.raw.iter().map(|(i,n)| json!([i, n])).collect::<Vec<_>>()})
     }
     pub fn from_json(v: &Value) -> Self {
         let base = v["base"].as_u64().unwrap_or(CFG_NEUTRAL as u64) as u8;
@@ -328,7 +334,16 @@ impl CfgHist {
                 flips.push((f[0].as_u64().unwrap_or(0) as u32, f[1].as_u64().unwrap_or(0) as u8));
             }
         }
-        CfgHist { base, flips }
+        let mut raw = vec![];
+        if let Some(a) = v["raw_stream_reads"].as_array() {
+            for f in a {
+                raw.push((f[0].as_u64().unwrap_or(0) as u32, f[1].as_u64().unwrap_or(0) as u8));
+            }
+        }
+        CfgHist { base, flips, raw }
+    }
+    pub fn raw_after(&self, call: u32) -> Option<usize> {
+        self.raw.iter().find(|(i, _)| *i == call).map(|(_, n)| *n as usize)
     }
 }
 
@@ -361,6 +376,14 @@ pub fn trace_slice(input: &[u8], cfg: &CfgHist) -> Trace {
         };
         let eof = e.obs.is_eof();
         t.push(e);
+        if let Some(n) = cfg.raw_after(call as u32).filter(|_| !t.iter().any(|e| matches!(&e.obs, Obs::Err(x) if x.is_syntax()))) {
+            use std::io::Read;
+            let before = r.buffer_position();
+            let mut b = vec![0u8; n];
+            let got = read_up_to(&mut r.stream(), &mut b);
+            b.truncate(got);
+            t.push(Entry { obs: Obs::Raw(b), before, after: r.buffer_position(), err_pos: r.error_position() });
+        }
         if eof || after_eof > 0 {
             after_eof += 1;
             if after_eof > EXTRA_CALLS {
@@ -369,6 +392,18 @@ pub fn trace_slice(input: &[u8], cfg: &CfgHist) -> Trace {
         }
     }
     t
+}
+
+/// read until `buf` is full or the source is exhausted (errors end the read)
+pub fn read_up_to<R: std::io::Read>(r: &mut R, buf: &mut [u8]) -> usize {
+    let mut got = 0;
+    while got < buf.len() {
+        match r.read(&mut buf[got..]) {
+            Ok(0) | Err(_) => break,
+            Ok(n) => got += n,
+        }
+    }
+    got
 }
 
 pub fn trace_buffered<'a>(src: ChunkedRead<'a>, cfg: &CfgHist) -> (Trace, ChunkedRead<'a>) {
@@ -393,6 +428,13 @@ pub fn trace_buffered<'a>(src: ChunkedRead<'a>, cfg: &CfgHist) -> (Trace, Chunke
         };
         let eof = e.obs.is_eof();
         t.push(e);
+        if let Some(n) = cfg.raw_after(call as u32).filter(|_| !t.iter().any(|e| matches!(&e.obs, Obs::Err(x) if x.is_syntax()))) {
+            let before = r.buffer_position();
+            let mut b = vec![0u8; n];
+            let got = read_up_to(&mut r.stream(), &mut b);
+            b.truncate(got);
+            t.push(Entry { obs: Obs::Raw(b), before, after: r.buffer_position(), err_pos: r.error_position() });
+        }
         if eof || after_eof > 0 {
             after_eof += 1;
             if after_eof > EXTRA_CALLS {
@@ -431,6 +473,26 @@ pub fn trace_async<'a>(src: AsyncChunked<'a>, cfg: &CfgHist) -> Result<(Trace, A
         };
         let eof = e.obs.is_eof();
         t.push(e);
+        if let Some(n) = cfg.raw_after(call as u32).filter(|_| !t.iter().any(|e| matches!(&e.obs, Obs::Err(x) if x.is_syntax()))) {
+            use tokio::io::AsyncReadExt;
+            let before = r.buffer_position();
+            let mut b = vec![0u8; n];
+            // read_exact re-polls with a partially filled buffer when the source delivers pieces
+            let got = {
+                let mut st = r.stream();
+                let (res, polls) = block_on(st.read_exact(&mut b), max_polls)?;
+                polls_total += polls;
+                match res {
+                    Ok(k) => k,
+                    Err(_) => usize::MAX,
+                }
+            };
+            if got == usize::MAX {
+                // fewer than n bytes were left: what was consumed is still reflected in the position
+                b.truncate((r.buffer_position() - before) as usize);
+            }
+            t.push(Entry { obs: Obs::Raw(b), before, after: r.buffer_position(), err_pos: r.error_position() });
+        }
         if eof || after_eof > 0 {
             after_eof += 1;
             if after_eof > EXTRA_CALLS {
